@@ -93,9 +93,42 @@ def wf_glyph(r):
         return (18, r.rng(0x20, 0x7E), 0, 0)
     if k == 10:
         cp = r.rng(0xA0, 0x7FF)
+        if r.chance(1, 3):
+            cp = r.pick([0xA0, 0xA1, 0xBF, 0xC0, 0xFF, 0x100, 0x13F, 0x140, 0x7C0, 0x7FE, 0x7FF])
         return (18, 0xC0 | (cp >> 6), 0x80 | (cp & 0x3F), 0)
     cp = r.rng(0x800, 0xFFFF)
+    if r.chance(1, 3):
+        # the first and last lead bytes and blocks of the three-byte range
+        cp = r.pick([0x800, 0x801, 0x83F, 0x840, 0x900 + r.below(0x100), 0xE00 + r.below(0x80), 0xFFF, 0x1000, 0x1001,
+                     0xCFFF, 0xD000, 0xD7FF, 0xE000, 0xF000 + r.below(0x1000), 0xFFFD, 0xFFFF])
     return (18, 0xE0 | (cp >> 12), 0x80 | ((cp >> 6) & 0x3F), 0x80 | (cp & 0x3F))
+
+
+def near_glyph(r, g):
+    """a well-formed glyph differing from g in one place only (last UTF-8 byte,
+    middle byte, lead byte, the single byte, or the character set)"""
+    cs, b0, b1, b2 = g
+    if cs == 18 and b0 >= 0xE0:
+        k = r.below(3)
+        if k == 0:
+            return (cs, b0, b1, 0x80 + (b2 - 0x80 + r.rng(1, 63)) % 64)
+        if k == 1:
+            nb1 = 0x80 + (b1 - 0x80 + r.rng(1, 63)) % 64
+            if b0 == 0xE0 and nb1 < 0xA0:
+                nb1 += 0x20
+            return (cs, b0, nb1, b2)
+        nb0 = r.rng(0xE1, 0xEF)
+        return (cs, nb0, b1, b2)
+    if cs == 18 and b0 >= 0xC2:
+        if r.chance(1, 2):
+            return (cs, b0, 0x80 + (b1 - 0x80 + r.rng(1, 63)) % 64, 0)
+        return (cs, r.rng(0xC3, 0xDF), b1, 0)
+    if r.chance(1, 3) and cs != 18 and 0x20 <= b0 <= 0x7E:
+        return (r.pick([c for c in DESIGNATABLE + [5] if c != cs]), b0, 0, 0)
+    nb = b0 + r.pick([-1, 1])
+    if not (0x20 <= nb <= 0x7E or (cs != 18 and cs != 5 and 0xA0 <= nb <= 0xFF)):
+        nb = 0x41 if b0 != 0x41 else 0x42
+    return (cs, nb, 0, 0)
 
 
 def wild_glyph(r):
@@ -131,8 +164,9 @@ class ElemSource:
         self.ctl = ctl
         self.prev_attr = DEFAULT_ATTR
         self.prev_cs = 5
+        self.prev_g = None
 
-    def next(self):
+    def next(self, near=None, near_attr=None):
         r = self.r
         if self.wild:
             g, a = wild_glyph(r), (wild_attr(r) if r.chance(1, 2) else self.prev_attr)
@@ -149,10 +183,15 @@ class ElemSource:
             g = wf_glyph(r)
             if r.chance(1, 2) and g[0] != self.prev_cs and self.prev_cs != 18 and g[0] != 18:
                 g = (self.prev_cs,) + g[1:]
+            base = near if near is not None else self.prev_g
+            if base is not None and (near is not None or r.chance(1, 10)) and (base[1] >= 0x20 and base[1] != 0x7F):
+                g = near_glyph(r, base)
+                if near is not None and near_attr is not None and r.chance(3, 4):
+                    a = near_attr
             if self.ctl and r.chance(1, 12):
                 # a format effector written as an element (newline in a string, tab, ...)
                 g = (r.pick([5, 5, g[0]]), r.pick([10, 10, 13, 9, 8]), 0, 0)
-        self.prev_attr, self.prev_cs = a, g[0]
+        self.prev_attr, self.prev_cs, self.prev_g = a, g[0], g
         return el(g, a)
 
 
@@ -183,9 +222,15 @@ def gen_term_case(r, idx, wild=False, nops=None, kinds=None):
     for _ in range(n):
         k = r.pick(kinds) if kinds else r.below(34)
         if k < 9:
-            lines.append("T 0 elem " + es.next())
+            txt = es.next()
+            if not wild and cur is not None and (cur[0] == 0 or r.chance(1, 6)) and r.chance(1, 4):
+                # a carriage return or backspace where a position is believed known
+                txt = el((5, r.pick([8, 8, 13]), 0, 0), tuple(int(v) for v in txt.split()[4:]))
+            lines.append("T 0 elem " + txt)
             if cur is not None:
-                cur = (cur[0] + 1, cur[1])
+                b0 = int(txt.split()[1])
+                # where a library that tracked these itself would believe the cursor to be
+                cur = (0, cur[1]) if b0 == 13 else (cur[0] - 1, cur[1]) if b0 == 8 else cur if b0 < 32 else (cur[0] + 1, cur[1])
         elif k < 13:
             m = r.rng(0, 5)
             if long and r.chance(1, 2):
@@ -200,8 +245,17 @@ def gen_term_case(r, idx, wild=False, nops=None, kinds=None):
             lines.append("T 0 oda")
         elif k < 21:
             if w == 0 and not wild:
+                if r.chance(1, 2):
+                    # the application moves the cursor before it has told the library the
+                    # terminal's size (outside the theorems' hypotheses; clauses 802/1301 still apply)
+                    lines.append("T 0 move %d %d" % (r.pick([0, 0, 1, 12, 79]), r.pick([0, 0, 1, 30])))
+                    if r.chance(1, 3):
+                        lines.append("T 0 save")
+                    if r.chance(1, 2):
+                        w, h = r.rng(1, 9), r.rng(1, 5)
+                        lines.append("T 0 size %d %d" % (w, h))
                 continue
-            if wild and cur is not None and r.chance(1, 3):
+            if wild and cur is not None and cur[0] >= 0 and r.chance(1, 3):
                 x, y = cur
             elif wild and r.chance(1, 3):
                 x, y = r.below(15), r.below(9)
@@ -210,11 +264,11 @@ def gen_term_case(r, idx, wild=False, nops=None, kinds=None):
                 if cur is not None and r.chance(1, 2):
                     c = r.below(3)
                     if c == 0:
-                        x = cur[0] if cur[0] < w else x
+                        x = cur[0] if 0 <= cur[0] < w else x
                     elif c == 1:
                         y = cur[1] if cur[1] < h else y
                     else:
-                        x, y = (cur if cur[0] < w and cur[1] < h else (x, y))
+                        x, y = (cur if 0 <= cur[0] < w and cur[1] < h else (x, y))
                 if r.chance(1, 4):
                     x = max(w - 1 - r.below(2), 0)
             cur = (x, y)
@@ -268,6 +322,7 @@ def gen_screen_case(r, idx, wild=False):
         lines.append("T 0 elem " + es0.next())
     lines.append("K 0 new %d %d" % (w, h))
     es = ElemSource(r, wild)
+    cellmap = {}
     sized = False
     for frame in range(r.rng(1, 5)):
         if r.chance(1, 4) and frame > 0:
@@ -295,7 +350,15 @@ def gen_screen_case(r, idx, wild=False):
                 x, y = w - 1, r.below(h)
             else:
                 x, y = r.below(w), r.below(h)
-            lines.append("K 0 set %d %d %s" % (x, y, es.next()))
+            held = cellmap.get((x, y))
+            txt = (es.next(near=held[0], near_attr=held[1]) if (held is not None and not wild and r.chance(1, 3))
+                   else es.next())
+            nums = tuple(int(v) for v in txt.split())
+            cellmap[(x, y)] = (nums[:4], nums[4:])
+            lines.append("K 0 set %d %d %s" % (x, y, txt))
+        if not wild and r.chance(1, 5):
+            # the application switches a mode between two frames
+            lines.append("T 0 " + r.pick(["hide", "hide", "show", "mouse 1", "mouse 0", "buf 1", "buf 0", "title 6162"]))
         lines.append("T 0 size %d %d" % (w, h))
         lines.append("S 0 draw 0")
         if r.chance(1, 3):
@@ -508,14 +571,14 @@ def frag_bytes(r):
     state a parser might carry from one sequence into the next."""
     out = list(r.pick([[27, 91], [27, 91], [27, 27, 91], [155], [27, 79], [143], [27, 63], [27, 80]]))
     if r.chance(1, 4):
-        out.append(r.pick([63, 62, 33, 61]))
-    for _ in range(r.pick([0, 1, 1, 2, 3])):
+        out.append(r.pick([63, 62, 33, 61, 60, 60]))
+    for _ in range(r.pick([0, 1, 1, 2, 3, 3, 4, 5, 8, 16, 17, 33])):
         out += [ord(c) for c in str(r.pick([0, 1, 2, 5, 6, 11, 15, 24, 35, 200, r.below(100)]))]
         if r.chance(1, 2):
             out.append(59)
     k = r.below(8)
     if k < 2:
-        out.append(r.pick([65, 66, 67, 68, 70, 72, 80, 90, 104, 108, 109, 82, 116]))
+        out.append(r.pick([65, 66, 67, 68, 70, 72, 80, 90, 104, 108, 109, 109, 77, 82, 116]))
     elif k == 2:
         out.append(126)
     elif k < 5:
@@ -581,8 +644,15 @@ def gen_chunks_case(r, idx, item_stream=None):
             chunks = [bs[i:i + k] for i in range(0, len(bs), k)]
         else:
             chunks = partition(r, bs, tid if tid < 2 else 2)
+        busy = r.chance(1, 4)
         for chunk in chunks:
             lines.append("T %d recv %s" % (tid, hexs(chunk)))
+            if busy and r.chance(1, 3):
+                # the application uses the terminal for output between two
+                # deliveries (a resize after a size report, a redraw, ...)
+                lines.append("T %d %s" % (tid, r.pick([
+                    "size %d %d" % (r.rng(1, 9), r.rng(1, 5)), "size 80 24", "move 0 0", "erase 0", "hide", "show",
+                    "elem " + el(wf_glyph(r), wf_attr(r)), "save", "restore", "mouse 1", "buf 1", "title 6869"])))
     lines.append("END")
     return lines
 
